@@ -26,3 +26,27 @@ Proof. reflexivity. Qed.
 Lemma gen_wiring_Strand_share_sum :
   wsrc_Strand_share_sum = Some (WTryValueError (w_vector_of "share_sum") "").
 Proof. reflexivity. Qed.
+
+(* SecondOrderMeasures.column_share_sum *)
+Lemma gen_wiring_SecondOrderMeasures_column_share_sum :
+  wsrc_SecondOrderMeasures_column_share_sum = Some (WCall (WGlobal "_ColumnShareSum") [WSelf
+      "_dimensions"; WVar "self"; WSelf "_cube_measures"] []).
+Proof. reflexivity. Qed.
+
+(* SecondOrderMeasures.row_share_sum *)
+Lemma gen_wiring_SecondOrderMeasures_row_share_sum :
+  wsrc_SecondOrderMeasures_row_share_sum = Some (WCall (WGlobal "_RowShareSum") [WSelf "_dimensions";
+      WVar "self"; WSelf "_cube_measures"] []).
+Proof. reflexivity. Qed.
+
+(* SecondOrderMeasures.total_share_sum *)
+Lemma gen_wiring_SecondOrderMeasures_total_share_sum :
+  wsrc_SecondOrderMeasures_total_share_sum = Some (WCall (WGlobal "_TotalShareSum") [WSelf
+      "_dimensions"; WVar "self"; WSelf "_cube_measures"] []).
+Proof. reflexivity. Qed.
+
+(* StripeMeasures.share_sum *)
+Lemma gen_wiring_StripeMeasures_share_sum :
+  wsrc_StripeMeasures_share_sum = Some (WCall (WGlobal "_ShareSum") [WSelf "_rows_dimension"; WVar
+      "self"; WSelf "_cube_measures"] []).
+Proof. reflexivity. Qed.
